@@ -199,10 +199,17 @@ func generate() {
 		"(unary helpers 3 quick / 5 thorough; all pairs of length<=2, and of length<=3 over a 4/8-symbol sub-alphabet, for the binary helpers; all three strip modes), shortest first; " +
 		"random longer inputs (<=200 bytes) built from grammar tokens (common prefixes with case/NUL/high-byte differences, needles cut from the haystack with a NUL before/inside/behind the hit, " +
 		"ANSI tokens incl. truncated ones, DBCS runs with dangling leads, CR/LF mixes, subject prefixes); arrays with and without a terminating NUL on either side; " +
+		"histories of 2-8 calls of the slice-returning helpers where earlier results are kept, re-read after every later call and re-used as arguments (all three strip modes of one message, strip/other/strip-again, every helper followed by every other one, random mixes), and the same calls from concurrent goroutines; " +
 		"a malformed op stream (bad hex, wrong arity, unknown op). distinct = distinct op lines; nontrivial = every well-formed op"
+	if *onlyAlias {
+		// the race-detector pass: histories and concurrent callers only
+		genAlias()
+		return
+	}
 	genGroup1()
 	genGroup2()
 	genGroup3()
+	genAlias()
 	genMalformed()
 	finishGroup3()
 }
